@@ -192,6 +192,13 @@ def evalExact (u : Utt) (s s' : SState) (d : Dump) : (Bool × Nat × Nat × Stri
         let h' := s'.hmm p
         let m := evalHist3 tp (fun k => es.getD k 0) h
         n := n + 1
+        -- the hypotheses of `C01_hmm_eval_3st_refines`: emission scores ≤ 0, no skip 1→3 without skip 0→2
+        let hypOk := es.all (fun x => decide (x ≤ 0)) &&
+          (!decide (SSVerif.Hmm.tprob tp 1 3 > SSVerif.Generated.Search.tmatWorstScore) ||
+            decide (SSVerif.Hmm.tprob tp 0 2 > SSVerif.Generated.Search.tmatWorstScore)) && tp.length == 12
+        if !hypOk then
+          if ok then why := s!"pnode {p} tmat {tm} e={es} tp={tp}: emission score > 0 or a skip 1→3 without the skip 0→2"
+          ok := false
         let inner := m.sc 1 == h'.sc 1 && m.sc 2 == h'.sc 2 && m.hi 1 == h'.hi 1 && m.hi 2 == h'.hi 2 &&
           m.outScore == h'.outScore && m.outHist == h'.outHist
         -- state 0: the evaluated value, unless an enter overwrote it (then the entered score is better)
